@@ -69,7 +69,7 @@ extern int g_sl_snk_err;
 #define SL_SNK_GOT1_O(v) (g_sl_snk_pos == (size_t)(__CPROVER_old(g_sl_snk_pos) + 1u) \
   && g_sl_snk_val == (g_sl_obs == __CPROVER_old(g_sl_snk_pos) ? (unsigned char)(v) : __CPROVER_old(g_sl_snk_val)))
 /* a negative return value ret is the sink driver's, returned unchanged */
-#define SL_SNK_ERR_O(ret) ((ret) == g_sl_snk_err && g_sl_snk_nneg != __CPROVER_old(g_sl_snk_nneg))
+#define SL_SNK_ERR_O(ret) ((ret) == g_sl_snk_err && g_sl_snk_nneg > __CPROVER_old(g_sl_snk_nneg))
 #define SL_SRC_ERR_O(ret) ((ret) == g_sl_src_err && g_sl_src_nneg == (size_t)(__CPROVER_old(g_sl_src_nneg) + 1u))
 #define SL_SRC_NOERR_O (g_sl_src_nneg == __CPROVER_old(g_sl_src_nneg) && g_sl_src_err == __CPROVER_old(g_sl_src_err))
 
@@ -128,7 +128,7 @@ __CPROVER_ensures(IMPLIES(__CPROVER_return_value >= 0,
 __CPROVER_ensures(IMPLIES(__CPROVER_return_value < 0,
     SL_SNK_ERR_O(__CPROVER_return_value)
     && SL_REL(g_sl_snk_pos, __CPROVER_old(g_sl_snk_pos)) < SLIP_ESCLEN(data)))
-__CPROVER_ensures(g_sl_snk_budget <= __CPROVER_old(g_sl_snk_budget))
+__CPROVER_ensures(g_sl_snk_budget <= __CPROVER_old(g_sl_snk_budget) && g_sl_snk_nneg >= __CPROVER_old(g_sl_snk_nneg))
 ;
 
 /* decode_octet: with p the source position at entry,
